@@ -70,7 +70,8 @@ _LOOP_PARTIAL = {
 }
 for pid, (mods, audits) in _LOOP.items():
     if _have(*audits):
-        fams = ["loop", "interleave"] if pid in ("C08", "C09") else ["loop", "sigs"] if pid == "C05" else ["loop"]
+        fams = (["loop", "interleave"] if pid in ("C08", "C09", "C12") else ["loop", "sigs"] if pid == "C05"
+                else ["loop"])
         _reg(pid, mods, audits, fams, LOOP_NOTE, partial=_LOOP_PARTIAL.get(pid, ""))
 
 # ---------------------------------------------------------------- components
